@@ -8,7 +8,6 @@ use std::time::Instant;
 use crate::arena::{is_canonical, shape_key, state_key, walk, KeyOpts, Walk};
 use crate::model::{norm, Model, Obs};
 use crate::ops::{Alphabet, Cx, Op, K};
-use crate::ptypes::PType;
 use crate::sut::Sut;
 use crate::universe::Universe;
 use crate::viol::{guarded, pending_begin, pending_end, Viol};
@@ -23,6 +22,9 @@ pub struct St<S: Sut> {
     pub depth: u32,
     /// the operation sequence that produced this state (shared linked list)
     pub hist: Option<Arc<HistNode>>,
+    /// 0 = sane; n > 0 = n transitions after a structural / counter violation (explored up to a horizon
+    /// so that the downstream effects on the other properties become visible)
+    pub taint: u8,
 }
 
 pub struct HistNode {
@@ -48,8 +50,8 @@ pub type Observer<S> = fn(&St<S>, &Cx) -> (Vec<Viol>, u64);
 pub struct Config {
     pub alpha: Alphabet,
     pub key_opts: KeyOpts,
-    /// issue every keyed operation in both representations
-    pub two_reps: bool,
+    /// representation of the key arguments of operations: 0 = host bits zero, 1 = host bits set, 2 = both
+    pub rep_mode: u8,
     pub retain_all_subsets: bool,
     pub threads: usize,
     pub max_states: usize,
@@ -201,6 +203,9 @@ struct Cand<S: Sut> {
 
 type Sig = (String, String, String);
 
+/// how many transitions a state tainted by a structural / counter violation is followed
+pub const TAINT_HORIZON: u8 = 4;
+
 struct Partial<S: Sut> {
     cands: Vec<Cand<S>>,
     /// per signature: occurrences and the least (history length, history) witness
@@ -261,6 +266,7 @@ pub fn initial<S: Sut>(uni: &Universe, key_opts: KeyOpts) -> St<S> {
         key,
         depth: 0,
         hist: None,
+        taint: 0,
     }
 }
 
@@ -301,7 +307,7 @@ fn expand<S: Sut>(
             Err(msg) => part.record(Viol::new("C20", at.clone(), "panic", msg), st, None, &at),
         }
     }
-    let ops = S::enumerate_ops(uni, &st.model, cfg.alpha, cfg.two_reps, cfg.retain_all_subsets);
+    let ops = S::enumerate_ops(uni, &st.model, cfg.alpha, cfg.rep_mode, cfg.retain_all_subsets);
     for (op_idx, op) in ops.iter().enumerate() {
         let op = *op;
         let mut map = st.map.clone();
@@ -326,6 +332,7 @@ fn expand<S: Sut>(
             }
             Ok((vs, wk)) => {
                 let mut prune = false;
+                let mut tainted_now = false;
                 for v in vs {
                     if is_known(cfg, &v) {
                         *part.known_hits.entry(format!("{} {} {}", v.prop, v.site, v.cond)).or_default() += 1;
@@ -333,7 +340,7 @@ fn expand<S: Sut>(
                     } else {
                         // a broken structure or drifted counter taints every successor
                         if v.prop == "C15" || v.prop == "C16" || v.prop == "C04" {
-                            prune = true;
+                            tainted_now = true;
                         }
                         part.record(v, st, Some(op), "transition");
                     }
@@ -343,10 +350,28 @@ fn expand<S: Sut>(
                     continue;
                 };
                 part.max_arena_len = part.max_arena_len.max(w.arena_len);
-                if prune {
+                let taint: u8 = if tainted_now {
+                    1
+                } else if st.taint > 0 {
+                    st.taint + 1
+                } else {
+                    0
+                };
+                if prune || taint > TAINT_HORIZON {
                     part.pruned += 1;
                     continue;
                 }
+                // tainted states are kept apart from the sane state of the same shape
+                let key: Box<[u8]> = if taint > 0 {
+                    let mut k = key.into_vec();
+                    k.push(0xEE);
+                    k.push(taint);
+                    k.push(w.count as u8);
+                    k.extend(w.free.iter().map(|f| *f as u8));
+                    k.into_boxed_slice()
+                } else {
+                    key
+                };
                 if key == st.key {
                     part.self_loops += 1;
                     continue;
@@ -361,6 +386,7 @@ fn expand<S: Sut>(
                     key,
                     depth: st.depth + 1,
                     hist: Some(Arc::new(HistNode { op, parent: st.hist.clone() })),
+                    taint,
                 };
                 if let Some(&ci) = local_new.get(&key) {
                     // keep the least (parent, op_idx)
@@ -379,6 +405,11 @@ fn expand<S: Sut>(
 }
 
 pub fn explore<S: Sut>(uni: &Universe, cfg: &Config, observers: &[(&'static str, Observer<S>)]) -> Report {
+    explore_collect(uni, cfg, observers, None)
+}
+
+/// like `explore`, optionally handing back every state that was expanded
+pub fn explore_collect<S: Sut>(uni: &Universe, cfg: &Config, observers: &[(&'static str, Observer<S>)], mut collect: Option<&mut Vec<St<S>>>) -> Report {
     let t0 = Instant::now();
     let mut rep = Report {
         run: cfg.run_label.clone(),
@@ -464,7 +495,10 @@ pub fn explore<S: Sut>(uni: &Universe, cfg: &Config, observers: &[(&'static str,
             }
             next.push((id, c.st));
         }
-        frontier = next;
+        let old = std::mem::replace(&mut frontier, next);
+        if let Some(c) = collect.as_mut() {
+            c.extend(old.into_iter().map(|x| x.1));
+        }
         if visited.len() > cfg.max_states {
             rep.exhaustive = false;
             rep.cap_hit = Some(format!("max_states {} exceeded after layer {}", cfg.max_states, rep.layers));
